@@ -89,8 +89,10 @@ def call_ff(arg):
         return [(0, 0)], "%s: %s" % (type(exc).__name__, str(exc)[:80])
 
 
-SHAPES = ("list with repeats", "tuple", "frozenset", "one-shot iterator", "reversed OrderedDict", "shuffled dict",
-          "defaultdict", "numpy int64")
+# (the documented type is {(x, y): set of cores}: lists with repeats, tuples and one-shot iterators were tried by the
+# sixth-session audit and taken out again - an implementation that reads a core collection twice, or uses set
+# operations on it, is within the documentation: seeded-benign/C12-validate-out-of-range raised a false alarm)
+SHAPES = ("frozenset", "reversed OrderedDict", "shuffled dict", "defaultdict", "numpy int64")
 
 
 def dress(plain, shape, rng):
